@@ -228,6 +228,12 @@ def given_members_returned(ctx, jwk, extra):
 OTHER_TYPES = {"null": None, "int": 5, "float": 1.5, "bool": True, "list": ["a"], "dict": {"a": 1}, "empty_list": [], "str": "AAAA"}
 
 
+def small_d_key(crv, c, sz):
+    """public members of the key d = 3 (so that d + n still fits into the coordinate length where the order is below 2^(8*size))"""
+    x, y = c.mul(3, c.g)
+    return {"x": int_b64(x, sz), "y": int_b64(y, sz)}
+
+
 def malformed(ctx, jwk, rng):
     """yields (class, dict) that must be refused"""
     kty = jwk["kty"]
@@ -297,6 +303,12 @@ def malformed(ctx, jwk, rng):
             yield f"crv-mismatch-{priv}", {**base, "crv": other}
             yield f"crv-unknown-{priv}", {**base, "crv": "P-257"}
             yield f"crv-okp-name-{priv}", {**base, "crv": "Ed25519"}
+        # a private value outside [1, n-1]: d + n describes the same point (so a check d*G == (x, y) passes), but it is not a private key of the curve -
+        # signing or exporting it fails in the backend, or an export is written that cannot be imported again
+        dv = b64_int(jwk["d"])
+        yield "ec-d-plus-order", {**jwk, "d": int_b64(dv + c.n, sz if (dv + c.n).bit_length() <= 8 * sz else sz + 1)}
+        yield "ec-d-plus-two-orders", {**jwk, "d": int_b64(dv + 2 * c.n, sz + 1)}
+        yield "ec-d-is-order-plus-small", {**{**jwk, **small_d_key(jwk["crv"], c, sz)}, "d": int_b64(3 + c.n, sz if (3 + c.n).bit_length() <= 8 * sz else sz + 1)}
     if kty == "OKP":
         n = OKP_SIZES[jwk["crv"]]
         x = b64u_dec(jwk["x"])
